@@ -782,6 +782,11 @@ ares_status_t ares_queue_wait_empty(ares_channel_t *channel, int timeout_ms)
     ares_tvnow(&tout);
     tout.sec  += (ares_int64_t)(timeout_ms / 1000);
     tout.usec += (unsigned int)(timeout_ms % 1000) * 1000;
+    /* Normalize, ares_timeval_remaining() compares the seconds first */
+    if (tout.usec >= 1000000) {
+      tout.sec  += 1;
+      tout.usec -= 1000000;
+    }
   }
 
   ares_thread_mutex_lock(channel->lock);
